@@ -306,6 +306,7 @@ func runC07(r *Run) {
 	if r.Tier == "thorough" {
 		nHist = 2500
 	}
+	c07Wire(r, nHist/4)
 	for h := 0; h < nHist; h++ {
 		ts := genTxnSchema(r.Rng, true)
 		im := newImplDB(ts)
